@@ -227,14 +227,17 @@ theorem C20_timeout (tmoMs : Nat) :
     exact ⟨m, canonMsg fs vals, mdText e.md, rfl⟩
   · intro c scn cd vars call ht hc
     subst ht
+    by_cases hb : callBad cd = true
+    · rw [specStep_bad c scn cd vars hb] at hc; simp at hc
+    have hb' : callBad cd = false := by simpa using hb
     cases hl : lookupMethod cd.call with
     | none => rw [specStep_unknown c scn cd vars hl] at hc; simp at hc
     | some mf =>
       obtain ⟨m, fs⟩ := mf
       cases hd : decodeFields fs (renderedPayload cd vars) with
-      | none => rw [specStep_illtyped c scn cd vars m fs hl hd] at hc; simp at hc
+      | none => rw [specStep_illtyped c scn cd vars m fs hb' hl hd] at hc; simp at hc
       | some vals =>
-        rw [(specStep_call c scn cd vars m fs vals hl hd).1] at hc
+        rw [(specStep_call c scn cd vars m fs vals hb' hl hd).1] at hc
         simp only [List.mem_singleton] at hc
         exact ⟨m, canonMsg fs vals, mdText (renderedMd cd vars), hc⟩
 
@@ -253,9 +256,10 @@ source is a configuration the provider rejects). Templates may refer to variable
 def Modelled (c : Cfg) (cd : CallDef) : Prop :=
   (cd.pre && c.users.isEmpty) = false
 
-/-- the step names no method of the table, or its rendered payload does not fit the method's input type -/
+/-- one of the step's templates cannot be parsed or executed, or the step names no method of the table, or its rendered
+payload does not fit the method's input type -/
 def FailingStep (cd : CallDef) (vars : Vars Char) : Prop :=
-  lookupMethod cd.call = none ∨
+  callBad cd = true ∨ lookupMethod cd.call = none ∨
     ∃ m fs, lookupMethod cd.call = some (m, fs) ∧ decodeFields fs (renderedPayload cd vars) = none
 
 /-- the invariant holds initially (call names pairwise distinct, as the provider's registry requires) -/
@@ -282,23 +286,32 @@ theorem C20_scenario_step (c : Cfg) (gun : Nat) (scn : String) (cd : CallDef) (w
           decodeFields fs (renderedPayload cd (stepVars c cd w.iters sv).1) = some vals ∧
           o.calls = [callText m (canonMsg fs vals) (mdText (renderedMd cd (stepVars c cd w.iters sv).1)) c.tmo] ∧
           o.samples.length = 1 ∧ DefinitionsIntact c w') := by
-  obtain ⟨w', hw', _, _, hstep⟩ := shootStep_copy c gun scn cd w sv hd hw hcd hm
+  obtain ⟨w', hw', _, hstep⟩ := shootStep_copy c gun scn cd w sv hd hw hcd hm
   constructor
   · intro hf
-    rcases hf with h | ⟨m, fs, h1, h2⟩
+    rcases hf with hb | h | ⟨m, fs, h1, h2⟩
+    · rw [specStep_bad c scn cd _ hb] at hstep
+      exact ⟨w', _, hstep, rfl, Or.inl rfl, hw'⟩
     · rw [specStep_unknown c scn cd _ h] at hstep
       exact ⟨w', _, hstep, rfl, Or.inl rfl, hw'⟩
-    · rw [specStep_illtyped c scn cd _ m fs h1 h2] at hstep
-      exact ⟨w', _, hstep, rfl, Or.inr rfl, hw'⟩
+    · by_cases hb : callBad cd = true
+      · rw [specStep_bad c scn cd _ hb] at hstep
+        exact ⟨w', _, hstep, rfl, Or.inl rfl, hw'⟩
+      · rw [specStep_illtyped c scn cd _ m fs (by simpa using hb) h1 h2] at hstep
+        exact ⟨w', _, hstep, rfl, Or.inr rfl, hw'⟩
   · intro hnf
+    have hb : callBad cd = false := by
+      cases h : callBad cd with
+      | false => rfl
+      | true => exact absurd (Or.inl h) hnf
     cases hl : lookupMethod cd.call with
-    | none => exact absurd (Or.inl hl) hnf
+    | none => exact absurd (Or.inr (Or.inl hl)) hnf
     | some mf =>
       obtain ⟨m, fs⟩ := mf
       cases hdec : decodeFields fs (renderedPayload cd (stepVars c cd w.iters sv).1) with
-      | none => exact absurd (Or.inr ⟨m, fs, hl, hdec⟩) hnf
+      | none => exact absurd (Or.inr (Or.inr ⟨m, fs, hl, hdec⟩)) hnf
       | some vals =>
-        obtain ⟨h1, h2⟩ := specStep_call c scn cd _ m fs vals hl hdec
+        obtain ⟨h1, h2⟩ := specStep_call c scn cd _ m fs vals hb hl hdec
         obtain ⟨hmem, hcall⟩ := lookupMethod_some cd.call m fs hl
         rw [h2] at hstep
         simp only [if_true] at hstep
@@ -346,10 +359,14 @@ example : exGood ∈ exCfg.calls ∧ exBad ∈ exCfg.calls := by simp [exCfg]
 example : Modelled exCfg exGood ∧ Modelled exCfg exBad := by
   constructor <;> (unfold Modelled; decide)
 example (vars : Vars Char) : FailingStep exBad vars := by
-  left; simp [exBad, lookupMethod, methodTable, svc]
+  right; left; simp [exBad, lookupMethod, methodTable, svc]
+/-- a step whose metadata holds an action the template engine rejects fails whatever its variables are -/
+example (vars : Vars Char) : FailingStep { exGood with md := [("x-e", [Piece.var vBad])] } vars := by
+  left; decide
 example : ¬ FailingStep exGood [(vU, ['1'])] := by
   intro h
-  rcases h with h | ⟨m, fs, h1, h2⟩
+  rcases h with hb | h | ⟨m, fs, h1, h2⟩
+  · revert hb; decide
   · simp [exGood, lookupMethod, methodTable, svc] at h
   · simp [exGood, lookupMethod, methodTable, svc] at h1
     obtain ⟨rfl, rfl⟩ := h1
